@@ -97,6 +97,45 @@ def capture_arc_like(g, shape_call, n_hypot=2):
     return rec.calls
 
 
+class ArcRecorder:
+    """numpy for a full pass through arc(): hypot #1/#2 return the same dummy radius (so the
+    equidistance check passes), arctan2 returns fixed dummy angles, hypot #3 (the path length
+    from arc length and Z travel) returns a recognisable value."""
+    LENGTH = 7.25
+
+    def __init__(self):
+        self.hypots, self.atans = [], []
+
+    def hypot(self, a, b):
+        self.hypots.append((a, b))
+        return self.LENGTH if len(self.hypots) >= 3 else 2.0
+
+    def arctan2(self, y, x):
+        self.atans.append((y, x))
+        return 0.25 if len(self.atans) == 1 else 1.0   # end angle, then start angle
+
+    def isclose(self, a, b, **kw):
+        return a == b
+
+    def __getattr__(self, name):
+        import numpy
+        return getattr(numpy, name)
+
+
+def capture_arc_full(g, shape_call):
+    """Run arc() completely, with parametric() replaced by a recorder.
+    Returns (recorder, [(function, length, kwargs)])."""
+    rec = ArcRecorder()
+    calls = []
+    g.trace.parametric = lambda fn, length, **kw: calls.append((fn, length, kw))
+    try:
+        with tracer_np(rec):
+            shape_call(g)
+    finally:
+        del g.trace.parametric
+    return rec, calls
+
+
 def capture_spline(g, shape_call):
     rec = SplineRecorder()
     with tracer_spline(rec):
